@@ -59,6 +59,10 @@ def mk_cmp(op, l, r):
                 return a
             if is_const(b) and b[1] is False and _boolish(a):
                 return mk_not(a)
+        # (A if c else B) == K  with a constant arm:  distribute the comparison over the conditional expression
+        for a, b in ((l, r), (r, l)):
+            if a[0] == "ife" and is_const(b) and (is_const(a[2]) or is_const(a[3])):
+                return mk_bool("or", [mk_bool("and", [a[1], mk_cmp("==", a[2], b)]), mk_bool("and", [mk_not(a[1]), mk_cmp("==", a[3], b)])])
         # the result of an arithmetic / bitwise operation, a comparison, a display or a bound method of self is never None
         for a, b in ((l, r), (r, l)):
             if is_const(b) and b[1] is None and (a[0] in ("bin", "cmp", "list", "tuple", "dict", "cat") or
@@ -425,6 +429,13 @@ class SymEval:
             lo, hi, st = idx[1], idx[2], idx[3]
             if base[0] == "list" and st is None and (lo is None or is_const(lo)) and (hi is None or is_const(hi)):
                 return ("list", base[1][(lo[1] if lo else None):(hi[1] if hi else None)])
+        # X[lo:hi][k]  ==  X[lo + k]   (constant, non-negative lo and k; k inside the slice when hi is constant)
+        if idx[0] != "slice" and is_const(idx) and isinstance(idx[1], int) and not isinstance(idx[1], bool) and idx[1] >= 0 and \
+                base[0] == "sub" and base[2][0] == "slice" and base[2][3] is None:
+            lo, hi = base[2][1], base[2][2]
+            lov = 0 if lo is None else (lo[1] if is_const(lo) and isinstance(lo[1], int) and lo[1] >= 0 else None)
+            if lov is not None and (hi is None or (is_const(hi) and isinstance(hi[1], int) and hi[1] >= 0 and lov + idx[1] < hi[1])):
+                return self.subscript(base[1], ("c", lov + idx[1]))
         s = ("sub", base, idx)
         return self._heap_read(s)
 
@@ -548,6 +559,14 @@ class SymEval:
                         items.append(self.expr(n.elt))
                     self.env = saved
                     return ("list", tuple(items))
+            if it[0] in ("tuple", "list") and 0 < len(it[1]) <= 32 and all(is_const(x) for x in it[1]):
+                # ... and so is one over a display of constants (shift amounts, field positions)
+                items = []
+                for v in it[1]:
+                    self.env[n.generators[0].target.id] = v
+                    items.append(self.expr(n.elt))
+                self.env = saved
+                return ("list", tuple(items))
         for g in n.generators:
             it = self.expr(g.iter)
             self._bind_target(g.target, ("iter", it))
@@ -584,6 +603,53 @@ class SymEval:
             f = self.expr(n.func)
         args = tuple(self.expr(a) for a in n.args)
         kwargs = tuple((k.arg if k.arg else "**", self.expr(k.value)) for k in n.keywords)
+        # f(*(a, b, c))  ==  f(a, b, c)   (a tuple / list display spliced in)
+        if any(a[0] == "star" for a in args):
+            flat_a, oka = [], True
+            for a in args:
+                if a[0] != "star":
+                    flat_a.append(a)
+                elif a[1][0] in ("tuple", "list") and not any(x[0] == "star" for x in a[1][1]):
+                    flat_a.extend(a[1][1])
+                else:
+                    oka = False
+            if oka:
+                args = tuple(flat_a)
+        # f(**{'a': x, ...})  ==  f(a=x, ...)   (a dict display / dict(...) with constant string keys)
+        if any(k == "**" for k, _ in kwargs):
+            flat, okx = [], True
+            for k, v in kwargs:
+                if k != "**":
+                    flat.append((k, v))
+                elif v[0] == "dict" and all(is_const(kk) and isinstance(kk[1], str) and kk[1] != "**" for kk, _ in v[1]):
+                    flat.extend((kk[1], vv) for kk, vv in v[1])
+                else:
+                    okx = False
+            if okx and len({k for k, _ in flat}) == len(flat):
+                kwargs = tuple(flat)
+        # dict(a=x, b=y)  ==  {'a': x, 'b': y};   dict(d, c=z) with d a display: merged
+        if f == ("glob", "dict") and all(k != "**" for k, _ in kwargs) and (not args or (len(args) == 1 and args[0][0] == "dict")):
+            base = list(args[0][1]) if args else []
+            keys = {k for k, _ in base}
+            for k, v in kwargs:
+                if ("c", k) in keys:
+                    base = [(kk, vv) for kk, vv in base if kk != ("c", k)]
+                base.append((("c", k), v))
+            return ("dict", tuple(base))
+        # K(b=y, a=x) for a class of the package: keywords moved into the constructor's positional order where they form a prefix
+        if f[0] == "clsref" and kwargs and self.prog is not None and all(k != "**" for k, _ in kwargs):
+            kc = self.prog.top_classes.get(f[1].split(".")[0])
+            init = self.prog.find_method(kc, "__init__") if kc is not None else None
+            if init is not None and not init.kwarg and not init.vararg:
+                kw = dict(kwargs)
+                pos = list(args)
+                for pname in init.params[len(pos):]:
+                    if pname in kw:
+                        pos.append(kw.pop(pname))
+                    else:
+                        break
+                if len(pos) == len(init.params) and not kw:      # only a complete binding is respelt (rules read partial ones by keyword)
+                    args, kwargs = tuple(pos), ()
         # pure folds that only read syntax
         if f == ("glob", "len") and len(args) == 1:
             a = args[0]
@@ -646,6 +712,16 @@ class SymEval:
                 w = field_writes(self.prog, callee)
                 for k in [k for k in self.heap if root_field(k) in w]:
                     self.heap.pop(k, None)
+        # local dict built in steps: d.update(k=v, ...) / d.update({...})
+        if f[0] == "attr" and f[2] == "update" and isinstance(n.func, ast.Attribute) and isinstance(n.func.value, ast.Name) \
+                and n.func.value.id in self.env and self.env[n.func.value.id][0] == "dict" and all(k != "**" for k, _ in kwargs) \
+                and (not args or (len(args) == 1 and args[0][0] == "dict")):
+            cur = list(self.env[n.func.value.id][1])
+            for k, v in (list(args[0][1]) if args else []) + [(("c", k), v) for k, v in kwargs]:
+                cur = [(kk, vv) for kk, vv in cur if kk != k] + [(k, v)]
+            self.env[n.func.value.id] = ("dict", tuple(cur))
+            self.effects.pop()
+            return ("c", None)
         # local list mutation idioms
         if f[0] == "attr" and isinstance(n.func, ast.Attribute) and isinstance(n.func.value, ast.Name) \
                 and n.func.value.id in self.env and (not is_heap_path(self.env[n.func.value.id])
